@@ -190,6 +190,9 @@ def gen_pct(rng, hostile, allow_out):
 def gen_chan(rng, hostile):
     """One rgb() channel -> (text, clamped value 0..255 Fraction, kind)"""
     x = rng.random()
+    if hostile and rng.random() < 0.012:
+        # one ulp-ish below the maximum: the colour is white to every tolerance, its hsl channels must still be finite
+        return '254.99999999999997', F('254.99999999999997'), 'ulp-below-255'
     if x < 0.15:
         t = rng.choice(['0', '255', '128', '127.5', '0.5', '254.5', '254.4999', '1', '254', '0.4999', '127', '17', '51'])
         return t, F(t), 'edge'
@@ -423,7 +426,7 @@ def alt_notation(rng, m):
         at = fdec(a, 13) if (a * 10 ** 6).denominator == 1 else 'math.div(%d, %d)' % (a.numerator, a.denominator)
         ch = [fdec(c, 13) if (c * 10 ** 6).denominator == 1 else 'math.div(%d, %d)' % (c.numerator, c.denominator) for c in (r, g, b)]
         opts.append(('rgba(%s, %s, %s, %s)' % (ch[0], ch[1], ch[2], at), 'rgba-decimal'))
-        if not at.startswith('math'):
+        if not at.startswith('math') and not any(x.startswith('math') for x in ch):
             opts.append(('rgb(%s %s %s / %s)' % (ch[0], ch[1], ch[2], fdec(a * 100, 11) + '%'), 'rgb-slash-percent-alpha'))
         pc = ['math.div(%d%%, %d)' % ((c * 100).numerator, (c * 100).denominator * 255) for c in (r, g, b)]
         opts.append(('rgba(%s, %s, %s, %s)' % (pc[0], pc[1], pc[2], at), 'rgba-percent-channels'))
